@@ -424,8 +424,25 @@ class StubNatural(ModuleResults):
         pass
 
 
+class StubNoConversion(ModuleResults):
+    """ a results class that has no JSON conversion of its own (the base class has none to offer) """
+    def add_to_record(self, record):
+        pass
+
+
+class StubExtendsBase(ModuleResults):
+    """ ... or one that builds on whatever the base class converts """
+    def to_json(self):
+        data = super().to_json()
+        data["payload"] = [1, 2, 3]
+        return data
+
+    def add_to_record(self, record):
+        pass
+
+
 NATURAL_KINDS = ["rawdict", "returns-object", "returns-bigint", "lazy-child-raises", "raises-TypeError",
-                 "raises-ValueError", "raises-KeyError"]
+                 "raises-ValueError", "raises-KeyError", "no-conversion", "extends-base-conversion"]
 MODULE_KINDS = ["plain", "lazy", "eager", "none", "tta", "side", "hmm"]
 REAL_KINDS = {"tta", "side", "hmm"}
 
@@ -540,6 +557,10 @@ def _module(kind, rec, hmm, side, index):
         return hmm
     if kind == "rawdict":
         return {"record_id": rec.id, "schema_version": 1}
+    if kind == "no-conversion":
+        return StubNoConversion(rec.id)
+    if kind == "extends-base-conversion":
+        return StubExtendsBase(rec.id)
     if kind in NATURAL_KINDS:
         return StubNatural(rec.id, kind)
     raise ValueError(kind)
@@ -769,7 +790,7 @@ def _fault_run(ctx, mods, variant, path, baseline, fault, case, natural=False):
         elif fault:
             related = any(isinstance(err, orjson.JSONEncodeError) for err in chain)
         else:
-            related = any(isinstance(err, (TypeError, ValueError, KeyError)) for err in chain)
+            related = any(isinstance(err, (TypeError, ValueError, KeyError, NotImplementedError)) for err in chain)
         if not related:
             ctx.violate("reported-error-unrelated-to-failure",
                         dict(facts, exception=type(error).__name__, message=str(error)[:160]), case)
@@ -1381,9 +1402,19 @@ def run(ctx):
         ctx.count("harness:audit-hook-errors", _M.hook_errors)
 
 
+FIRST_RUN = {"elements": ["log"], "input": "dir", "mode": "fresh", "logcfg": "inside", "cwd": "neutral",
+             "name": "explicit", "path_state": "exists"}
+
+
 def _run(ctx, base, main_module, config_module):
     quick = ctx.tier == "quick"
     complete = True
+
+    # the first preparation of an output directory in this process is a run that logs into its output directory
+    # (every later case has another log file setting: what the first run used must not stick)
+    ctx.guard("harness:directory-case-crashed", FIRST_RUN, run_dir_case, ctx, os.path.join(base, "d"), FIRST_RUN,
+              main_module, config_module)
+    ctx.count("history:first-run-of-the-process-logs-into-its-output-directory")
 
     # ---- (E) -------------------------------------------------------------------------------
     if ctx.worker == 0:
@@ -1396,6 +1427,7 @@ def _run(ctx, base, main_module, config_module):
     # ---- (D) -------------------------------------------------------------------------------
     cases = dir_cases(D_ELEMENTS, full=not quick)
     mine = [c for i, c in enumerate(cases) if i % ctx.nworkers == ctx.worker]
+    ctx.rng("directory-case-order").shuffle(mine)      # the cases meet in another order for every seed
     subsets = set()
     for i, case in enumerate(mine):
         if i % 64 == 0 and ctx.time_left() <= 0:
@@ -1514,6 +1546,8 @@ def replay(ctx, case):
                 if baseline is not None and fault:
                     _fault_run(ctx, mods, variant, path, baseline, tuple(fault), case)
         else:
+            # as in the run: the first preparation of the process is a run logging into its output directory
+            run_dir_case(ctx, os.path.join(base, "d"), FIRST_RUN, main_module, config_module)
             run_dir_case(ctx, os.path.join(base, "d"), case, main_module, config_module)
     finally:
         _M.uninstall_monitoring()
